@@ -17,6 +17,23 @@ def check_C20(ctx, rep):
 
 # ------------------------------------------------------------------ R53 (AST)
 
+def split_top(s):
+    out = []; depth = 0; cur = ""
+    for ch in s:
+        if ch in "([{":
+            depth += 1
+        if ch in ")]}":
+            depth -= 1
+        if ch == "," and depth == 0:
+            out.append(cur); cur = ""
+        else:
+            cur += ch
+    if cur:
+        out.append(cur)
+    return out
+
+IDENT = re.compile(r"^[A-Za-z_][A-Za-z0-9_]*$")
+
 def check_format_ast(rep, f):
     sites = [x for x in f.ast.get("format_args", []) if not x["in_test"] and x["impl_self"] == "TwoFloat" and x["fn"] == "fmt"
              and x["impl_trait"].split("::")[-1] in TRAITS]
@@ -37,6 +54,22 @@ def check_format_ast(rep, f):
                         prec = True; bind = m.group(1)
                     elif c["pat"].strip() == "None":
                         prec = False
+                if "match" in c:
+                    # flat form: match (f.sign_plus(), f.precision()) { (true, Some(p)) => .. }
+                    sc = re.sub(r"\s", "", c["match"]); pt = re.sub(r"\s", "", c["pat"])
+                    ms = re.match(r"^\((.*)\)$", sc); mp = re.match(r"^\((.*)\)$", pt)
+                    if ms and mp:
+                        se = split_top(ms.group(1)); pe = split_top(mp.group(1))
+                        if len(se) == len(pe):
+                            for sx, px in zip(se, pe):
+                                if sx.endswith(".sign_plus()") and px in ("true", "false"):
+                                    plus = (px == "true")
+                                if sx.endswith(".precision()"):
+                                    m2 = re.match(r"^Some\((\w+)\)$", px)
+                                    if m2:
+                                        prec = True; bind = m2.group(1)
+                                    elif px == "None":
+                                        prec = False
             inst = "%s{%s%s}" % (tr, "+" if plus else "", ".p" if prec else "")
             if plus is None or prec is None:
                 rep.fail("R53", inst, "fmt-conds:%s:%s" % (tr, x["span"].split(":")[0]), "format_args! in %s::fmt is not under the f.sign_plus() / f.precision() case split: %s" % (tr, x["conds"]), where=x["span"]); continue
@@ -54,13 +87,13 @@ def check_format_ast(rep, f):
                     if prec:
                         return isinstance(p["precision"], dict) and "arg" in p["precision"] and re.sub(r"\s", "", args[p["precision"]["arg"]]) == bind
                     return p["precision"] is None
-                if arg(p1) not in ("self.hi", "self.hi()"): errs.append("first numeral formats %s, not self.hi" % arg(p1))
+                if arg(p1) not in ("self.hi", "self.hi()") and not IDENT.match(arg(p1) or ""): errs.append("first numeral formats %s, not self.hi" % arg(p1))
                 if p1["trait"] != tr: errs.append("first numeral uses {:%s} inside %s" % (p1["trait"], tr))
                 if (p1["sign"] == "Plus") != bool(plus) or (p1["sign"] not in (None, "Plus")): errs.append("'+' flag on the first numeral is %s in the %s branch" % (p1["sign"], "sign_plus" if plus else "plain"))
                 if not prec_ok(p1): errs.append("precision of the first numeral is %s" % (p1["precision"],))
                 if not clean(p1): errs.append("extra format options on the first numeral")
-                if arg(p2) != "sign_char" or p2["trait"] != "Display" or p2["sign"] or p2["precision"] or not clean(p2): errs.append("middle placeholder is not the plain sign character")
-                if arg(p3) not in ("libm::fabs(self.lo)", "libm::fabs(self.lo())"): errs.append("last numeral formats %s, not |self.lo|" % arg(p3))
+                if not IDENT.match(arg(p2) or "") or p2["trait"] != "Display" or p2["sign"] or p2["precision"] or not clean(p2): errs.append("middle placeholder is not a plain character")
+                if arg(p3) not in ("libm::fabs(self.lo)", "libm::fabs(self.lo())") and not IDENT.match(arg(p3) or ""): errs.append("last numeral formats %s, not |self.lo|" % arg(p3))
                 if p3["trait"] != tr: errs.append("last numeral uses {:%s} inside %s" % (p3["trait"], tr))
                 if p3["sign"] is not None: errs.append("last numeral carries a sign flag")
                 if not prec_ok(p3): errs.append("precision of the last numeral is %s" % (p3["precision"],))
@@ -250,7 +283,7 @@ def check_serde(rep, f, sfx=""):
         rep.check(ok, "R54", "Deserialize goes through deserialize_struct" + sfx, "serde-entry", "Deserialize::deserialize is not deserialize_struct(\"TwoFloat\", .., visitor): %s" % vg.show(t)[:200], where=H.where(de), nontrivial=False)
 
 def check_visit_map(rep, f, b, variants, sfx):
-    ex = vg.Exec(f, vg.Policy(f, "op"), loops="havoc")
+    ex = vg.Exec(f, vg.Policy(f, "op", keep=H.primitive_idents(f), inline_private=True), loops="havoc")
     try:
         t = ex.run_body(b)
     except vg.Unsupported as u:
